@@ -63,6 +63,13 @@ int main(int argc, char **argv)
 	TAB1("rs_inv", of_rs_inverse);
 	TAB2("rs_mul", of_gf_mul_table);
 
+	/* "generated at first use": generating them again (of_rs_init is an exported function) must give the same tables */
+	of_rs_init();
+	TAB1("rs2_exp", of_rs_gf_exp);
+	TAB1("rs2_log", of_rs_gf_log);
+	TAB1("rs2_inv", of_rs_inverse);
+	TAB2("rs2_mul", of_gf_mul_table);
+
 	fprintf(out, "{\"e\":\"End\"}\n");
 	if (fclose(out) != 0) return 2;
 	return 0;
